@@ -61,6 +61,34 @@ theorem blrp_only_emitted (s : St) (h : Reachable cap batch buf s) : Spec.onlyEm
   simp only [allIds, List.count_append] at h1
   exact List.count_pos_iff.mp (by omega)
 
+/-- the chunker, as a function — whatever the inner exporter returns for each call (`res`: nil, an ordinary error,
+context.Canceled, context.DeadlineExceeded, … in any pattern), the calls made by `chunkExporter.Export` for a
+request `l` are: every record of `l` exactly once, in order (the concatenation of the calls is `l`), each call
+non-empty and no larger than the batch size; the returned error is non-nil iff some call failed. No error ends
+the loop. -/
+theorem blrp_chunker_total (size : Nat) (hpos : 1 ≤ size) (res : List Bool) (l : List Nat) :
+    (chunkExport size l.length res l).1.flatten = l ∧
+    (∀ c ∈ (chunkExport size l.length res l).1, c.length ≤ size ∧ c ≠ []) ∧
+    ((chunkExport size l.length res l).2 = true ↔
+      ∃ i, i < (chunkExport size l.length res l).1.length ∧ res.getD i true = false) :=
+  chunkExport_spec size hpos l.length res l (Nat.le_refl _)
+
+/-- the chunker, on the LTS — from any reachable state in which exportSync holds a request (`have`), running its
+`eStart` / `eEnd result` steps with ANY results appends exactly the calls of `chunkExport` to the exporter's log
+and leaves exportSync idle with nothing left over; the states passed are reachable, so all other theorems hold
+along the way. -/
+theorem blrp_chunker_lts (s : St) (h : Reachable cap batch buf s) (hpos : 1 ≤ batch) (res : List Bool)
+    (hh : s.eph = .have) (hne : s.curRem ≠ []) :
+    ∃ s', exportLoop s.curRem.length res s = some s' ∧ Reachable cap batch buf s' ∧ s'.eph = .idle ∧ s'.curRem = [] ∧
+      s'.exported = s.exported ++ (chunkExport batch s.curRem.length res s.curRem).1 := by
+  have hc := reachable_cfg cap batch buf s h
+  obtain ⟨s', hs', hi, hr, hx⟩ := exportLoop_spec s.curRem.length res s (hc.2.1 ▸ hpos) hh hne (Nat.le_refl _)
+  exact ⟨s', hs', exportLoop_reachable _ _ _ _ h hs', hi, hr, hc.2.1 ▸ hx⟩
+
+/-- non-vacuity: 5 records, batch size 2, the first two calls fail (say with context.DeadlineExceeded and
+context.Canceled): still three calls [1,2] [3,4] [5], error reported. -/
+example : chunkExport 2 5 [false, false, true] [1, 2, 3, 4, 5] = ([[1, 2], [3, 4], [5]], true) := by decide
+
 /-- L3 — the exporter's `Export` is entered only by the exportSync goroutine, only while it is not already
 inside an `Export` call (phase `have` → `busy`), with one chunk; and it leaves `busy` only through the return
 of that call. Hence two `Export` calls never overlap. -/
